@@ -144,7 +144,9 @@ func (exec *Executor) execAnyNode(
 func collection(v any) []any {
 	switch v := v.(type) {
 	case map[string]any:
-		return slices.Collect(maps.Values(v)) // Just work with the values
+		// Just work with the values. Never nil, so that an empty object is
+		// not mistaken for a scalar.
+		return slices.AppendSeq(make([]any, 0, len(v)), maps.Values(v))
 	case []any:
 		return v
 	}
